@@ -284,6 +284,48 @@ def run_hash(ctx, builds, args, nb, hname, timeout=1800):
     ctx.run_jobs(jobs, timeout=timeout)
 
 
+BE_TARGETS = ["armeb-none-eabi", "armebv7a-none-eabi", "thumbebv7em-none-eabi", "aarch64_be-none-elf", "powerpc-linux-gnu", "powerpc64-linux-gnu",
+              "mips-linux-gnu", "mips64-linux-gnu", "s390x-linux-gnu", "sparc-linux-gnu", "sparc64-linux-gnu", "m68k-linux-gnu"]
+LE_TARGETS = ["x86_64-linux-gnu", "i686-linux-gnu", "arm-none-eabi", "thumbv7m-none-eabi", "aarch64-linux-gnu", "riscv32", "riscv64", "avr",
+              "mipsel-linux-gnu", "powerpc64le-linux-gnu"]
+
+
+def byte_order_census(ctx):
+    """Supplementary configuration census for C10 (same verdict channel, like C19's symbol census): no big-endian
+    machine or emulator exists in the sandbox, but the library's own byte-order decision can be EXECUTED under the
+    predefined macros of every target clang knows: for a big-endian target the hash must take its conversion path
+    (LW_UTIL_LITTLE_ENDIAN undefined), otherwise every digest on that platform is wrong."""
+    import subprocess
+    if ctx.replay:
+        return
+    hdr = REPO + "/src/backend/tinyjambu-util.h"
+    n = 0
+    for t in BE_TARGETS + LE_TARGETS:
+        p = subprocess.run(["clang", "--target=" + t, "-ffreestanding", "-E", "-dM", hdr], stdout=subprocess.PIPE, stderr=subprocess.PIPE)
+        out = p.stdout.decode()
+        if p.returncode and "Cannot determine the endianess" not in p.stderr.decode():
+            ctx.info.append("byte-order census: clang has no usable target %s" % t)
+            continue
+        big = "__BYTE_ORDER__ __ORDER_BIG_ENDIAN__" in out
+        little_path = "#define LW_UTIL_LITTLE_ENDIAN" in out
+        n += 1
+        ctx.count("byte_order_targets_evaluated", 1)
+        ctx.count("evaluations", 1)
+        ctx.add_classes([("byte-order", t)])
+        if p.returncode:
+            ctx.info.append("byte-order census: the header refuses target %s (#error): a build break, not a wrong digest" % t)
+        elif big and little_path:
+            ctx.violation("byte-order-misdetected:" + t.split("-")[0],
+                          {"build": "clang --target=%s (preprocessor only)" % t,
+                           "detail": "tinyjambu-util.h defines LW_UTIL_LITTLE_ENDIAN although the target's __BYTE_ORDER__ is __ORDER_BIG_ENDIAN__: "
+                                     "tinyjambu_hash_compress then skips the little-endian conversion of the message words and every digest (and HMAC, HKDF, "
+                                     "PBKDF2, PRNG output) on this platform differs from the documented construction"})
+        if len(ctx.samples) < 12 and t in ("armeb-none-eabi", "powerpc-linux-gnu"):
+            ctx.samples.append({"h": "byte-order-census", "target": t, "target_is_big_endian": big, "library_takes_little_endian_fast_path": little_path})
+    if n < 12:
+        ctx.inconclusive.append("byte-order census evaluated only %d targets" % n)
+
+
 @check("C10", "exploration", floor=500)
 def c10(ctx):
     load_replay(ctx)
@@ -292,10 +334,11 @@ def c10(ctx):
     builds = build_set(ctx, ctx.q(["prod", "gcc-O0", "gcc-O2", "clang-O2", "clang-O3", "asan-gcc", "msan"],
                                   ["prod"] + MATRIX + MATRIX_X + ["asan-gcc", "asan-clang", "msan"]))
     run_hash(ctx, builds, ["--mode", "hash", "--p1", N, "--p2", reps, "--p3", NL], ctx.q(4, 16), "h_hash")
+    byte_order_census(ctx)
     ctx.rule = ("every length 0..N x 6 byte classes (x repetitions), placement (end-guard/start-guard/mid+canary) and alignment offset 0..7 "
                 "rotating with the index, NULL for length 0 in half of the cases; random long lengths (to 64 KiB; thorough: one 4 MiB message); "
                 "same case list on every build. class = (length | long bucket, byte class, placement, offset). Oracle: model of the README MDPH "
-                "construction over the bit-serial TinyJAMBU-256 NLFSR; tools/hashref compiled as is as second opinion.")
+                "construction over the bit-serial TinyJAMBU-256 NLFSR; tools/hashref compiled as is as second opinion. Supplementary census: the header's byte-order decision evaluated by the preprocessor under the predefined macros of 12 big-endian and 10 little-endian clang targets.")
     ctx.exhaustive = False
     ctx.assumptions += ["message contents are sampled (6 byte classes), lengths above the dense window are sampled"]
 
@@ -550,6 +593,13 @@ def c20(ctx):
                 builds.append({"tag": n, "lib": ctx.lib(n, cc, [o], cfg=cd), "cc": cc, "hflags": []})
     n = "asan-gcc-fallback"
     builds.append({"tag": n, "lib": ctx.lib(n, "gcc", asan_flags("gcc"), cfg=cfg_fb), "cc": "gcc", "hflags": asan_flags("gcc")})
+    # strict ISO C language mode (cmake -DCMAKE_C_EXTENSIONS=OFF): extensions such as explicit_bzero are then only
+    # declared if the source asks for them
+    for cc in ("gcc", "clang"):
+        for o in ctx.q(["-O2"], ["-O1", "-O2", "-O3", "-Os"]):
+            for cn, cd in (("bzero", cfg_bz), ("fallback", cfg_fb)):
+                n = "%s%s-std=c99-%s" % (cc, o, cn)
+                builds.append({"tag": n, "lib": ctx.lib(n.replace("=", "_"), cc, [o, "-std=c99", "-w"], cfg=cd), "cc": cc, "hflags": []})
     jobs = []
     for b in builds:
         exe = ctx.harness("h_erase-" + b["tag"], "h_erase.c", b["lib"], cc=b["cc"], flags=b["hflags"], with_model=False)
@@ -656,7 +706,7 @@ def c20(ctx):
                 "(offset 0..15, size 0..N) + sizes {4095,4096,4097,65535,65536,1 MiB+3}, junk arena compared byte by byte; every third case ends exactly "
                 "at a guard page; (c) wipe-survival probe: unity TU including /repo's tinyjambu-clean.c, {explicit_bzero, volatile fallback} x {gcc, clang} x "
                 "{-O0,-O1,-O2,-O3,-Os,-O2 -flto}; the dead buffer is read at its recorded address; memset/plain-loop controls must be seen to fail; (d) the four free functions with ALL library sources linked -flto ({gcc -O2, gcc -O3, clang -O2} x both configurations): a state object built on a dying stack frame is read back after its free function; a memset control must be seen to be removed. "
-                "Configurations of (a),(b): cmake production library, ASan/UBSan, and {gcc, clang} x opt levels x {explicit_bzero, fallback}. "
+                "Configurations of (a),(b): cmake production library, ASan/UBSan, {gcc, clang} x opt levels x {explicit_bzero, fallback}, and the same in strict ISO C mode (-std=c99); half of the clean calls leave recognisable garbage in the upper half of the 64-bit size register, as a caller passing `unsigned` may. "
                 "class = (type, history index) | (offset, size) | probe configuration.")
     ctx.exhaustive = False
     ctx.assumptions += ["copies of secrets in registers or compiler spills outside the wiped buffer are not part of the property",
